@@ -200,6 +200,38 @@ pub enum MemberVal {
 #[derive(Clone, Debug, Serialize, Deserialize, PartialEq, Eq, Hash)]
 pub struct TextCase {
     pub members: Vec<(String, MemberVal)>,
+    /// per member: how its NAME is spelled on the wire (0 plain, 1 first character as a \uXXXX
+    /// escape, 2 every character escaped, 3 last character escaped) - the same name to any JSON parser
+    #[serde(default)]
+    pub spell: Vec<u8>,
+}
+
+/// the JSON string literal for a member name under a spelling mode
+fn key_json(k: &str, mode: u8) -> String {
+    let plain = serde_json::to_string(k).unwrap();
+    if mode == 0 || k.is_empty() {
+        return plain;
+    }
+    let n = k.chars().count();
+    let mut out = String::from("\"");
+    for (i, ch) in k.chars().enumerate() {
+        let esc = match mode % 4 {
+            1 => i == 0,
+            2 => true,
+            _ => i == n - 1,
+        };
+        if esc {
+            let mut buf = [0u16; 2];
+            for u in ch.encode_utf16(&mut buf) {
+                out.push_str(&format!("\\u{:04x}", u));
+            }
+        } else {
+            let lit = serde_json::to_string(&ch.to_string()).unwrap();
+            out.push_str(&lit[1..lit.len() - 1]);
+        }
+    }
+    out.push('"');
+    out
 }
 
 fn stamp_text(v: &MemberVal) -> Option<(String, i128)> {
@@ -255,14 +287,14 @@ fn text_strategy() -> impl Strategy<Value = TextCase> {
         1 => Just(MemberVal::Arr),
         1 => Just(MemberVal::Obj),
     ];
-    proptest::collection::vec((key, val), 0..10).prop_map(|members| TextCase { members })
+    proptest::collection::vec((key, val, prop_oneof![5 => Just(0u8), 1 => Just(1u8), 1 => Just(2u8), 1 => Just(3u8)]), 0..10).prop_map(|ms| TextCase { spell: ms.iter().map(|m| m.2).collect(), members: ms.into_iter().map(|m| (m.0, m.1)).collect() })
 }
 
 const STRING_CLAIMS: [&str; 4] = ["iss", "sub", "aud", "jti"];
 const TIME_CLAIMS: [&str; 3] = ["exp", "nbf", "iat"];
 
 fn text_case(c: &TextCase, acc: &mut Acc) -> R {
-    let text = format!("{{{}}}", c.members.iter().map(|(k, v)| format!("{}:{}", serde_json::to_string(k).unwrap(), member_json(v))).collect::<Vec<_>>().join(","));
+    let text = format!("{{{}}}", c.members.iter().enumerate().map(|(i, (k, v))| format!("{}:{}", key_json(k, c.spell.get(i).copied().unwrap_or(0)), member_json(v))).collect::<Vec<_>>().join(","));
     let generic: Value = serde_json::from_str(&text).map_err(|e| Fail::new("HARNESS/c14-text", format!("generator wrote invalid JSON: {e}")))?;
     let obj = generic.as_object().unwrap();
     let decoded = RegisteredClaims::decode(text.as_bytes());
@@ -525,7 +557,7 @@ pub fn def() -> PropertyDef {
     PropertyDef {
         id: "C14",
         level: "exploration",
-        rule: "(a) proptest RegisteredClaims (7 fields absent/present; strings over all of Unicode incl. NUL, quotes, backslash, U+2028, surrogate-adjacent code points, U+10FFFF; timestamps over jiff's range at ns resolution): decode(encode(c)) == c field-wise, the wire form parses with serde_json::Value to an object whose member set is exactly the present claims, strings byte for byte, timestamps (years 0000..9999) accepted by an own strict RFC 3339 reader and denoting the same instant; (b) generated JSON object texts (registered and look-alike keys, strings, nulls, wrong types, nested objects re-using claim names, timestamps written from civil components with 0-9 fraction digits and numeric offsets, arbitrary order, duplicates): when decode succeeds every registered claim equals what a generic parser reads for that member (last duplicate; instants computed by the generator, not by jiff); objects with well-typed members, no duplicates and arbitrary extras must decode; (c) Json<T> payload/footer equal serde_json::to_vec / from_slice on generated Value trees and a typed struct; empty Json footer is an error; (d) histories on one thread mixing encodes / decodes that fail (a Serialize impl failing after it emitted output, non-string map keys, truncated JSON) with checked encodes and decodes: a failed operation leaves nothing behind. Non-trivial iff 1..6 fields present / an extra, duplicate or >= 2 members / a container value",
+        rule: "(a) proptest RegisteredClaims (7 fields absent/present; strings over all of Unicode incl. NUL, quotes, backslash, U+2028, surrogate-adjacent code points, U+10FFFF; timestamps over jiff's range at ns resolution): decode(encode(c)) == c field-wise, the wire form parses with serde_json::Value to an object whose member set is exactly the present claims, strings byte for byte, timestamps (years 0000..9999) accepted by an own strict RFC 3339 reader and denoting the same instant; (b) generated JSON object texts (registered and look-alike keys, member names spelled plainly or with \\uXXXX escapes, strings, nulls, wrong types, nested objects re-using claim names, timestamps written from civil components with 0-9 fraction digits and numeric offsets, arbitrary order, duplicates): when decode succeeds every registered claim equals what a generic parser reads for that member (last duplicate; instants computed by the generator, not by jiff); objects with well-typed members, no duplicates and arbitrary extras must decode; (c) Json<T> payload/footer equal serde_json::to_vec / from_slice on generated Value trees and a typed struct; empty Json footer is an error; (d) histories on one thread mixing encodes / decodes that fail (a Serialize impl failing after it emitted output, non-string map keys, truncated JSON) with checked encodes and decodes: a failed operation leaves nothing behind. Non-trivial iff 1..6 fields present / an extra, duplicate or >= 2 members / a container value",
         assumptions: vec!["leap seconds (:60) are not generated (jiff clamps them; the generator's own arithmetic would not)", "negative and 5-digit years are checked for round-trip only (outside RFC 3339)"],
         subs,
     }
